@@ -50,7 +50,8 @@ def scheme_table():
     t["sha256_crypt"] = dict(base=H.sha256_crypt.using(default_rounds=2000), P=P(1000, 999999999, 2000), greedy=False,
                              kws=[kw(), kw(minA=1500), kw(maxA=1500), kw(minA=1500, maxA=2500), kw(d=1800), kw(d=999), kw(minA=2500),
                                   kw(minA=3000, maxA=2500), kw(d=3000, maxA=2500), kw(minA=2000, maxA=2000), kw(varyK="int", varyV=100),
-                                  kw(varyK="pct", varyV=10, minA=1900), kw(minA=999, maxA=1200), kw(d=1500, varyK="pct", varyV=50, maxA=1600)],
+                                  kw(varyK="pct", varyV=10, minA=1900), kw(minA=999, maxA=1200), kw(d=1500, varyK="pct", varyV=50, maxA=1600),
+                                  kw(rounds=1800), kw(rounds=1500, maxA=2500), kw(rounds=2500, minA=1500), kw(rounds=1500, d=2100)],
                              vals=[1000, 1499, 1500, 1501, 1800, 2000, 2100, 2499, 2500, 2501, 3000])
     t["bcrypt"] = dict(base=H.bcrypt.using(default_rounds=5), P=P(4, 31, 5, cost="log2"), greedy=False,
                        kws=[kw(), kw(minA=5), kw(maxA=5), kw(minA=5, maxA=6), kw(d=4), kw(d=3), kw(minA=6), kw(maxA=4),
@@ -113,11 +114,14 @@ class Replayer:
             elif k == "list":
                 dl = sorted(cfg["depL"][c])
                 d[pre + "deprecated"] = dl if rnd.random() < .6 else ",".join(dl)
+        long_names = {n for n in ("min_rounds", "max_rounds") if rnd.random() < .4}
         for o in cfg["opts"]:
             pre = "" if o["cat"] == "none" else o["cat"] + "__"
             k = o["kw"]
-            for fld, name in (("minA", "min_rounds"), ("maxA", "max_rounds"), ("def", "default_rounds")):
+            for fld, name in (("minA", "min_rounds"), ("maxA", "max_rounds"), ("def", "default_rounds"), ("rounds", "rounds")):
                 if k[fld] != UNSET:
+                    if name in long_names:
+                        name = name.replace("_rounds", "_desired_rounds")       # the long spelling of the same option (one spelling per configuration)
                     d[f"{pre}{o['name']}__{name}"] = k[fld] if rnd.random() < .7 else str(k[fld])
             vkey = f"{pre}{o['name']}__vary_rounds"
             if o["name"] == "all" and o["cat"] == "none" and rnd.random() < .5:
@@ -398,6 +402,7 @@ def run(chk):
     if valid:
         chk.sample({"configuration": valid[0][0]["cfg"], "steps": [{k: s[k] for k in ("op", "cat", "pw", "h", "res")} for s in valid[0][1:4]]})
     category_specific_settings(chk)
+    cost_like_settings(chk)
     context_keywords(chk)
     chk.extra["behaviours"] = len(behs)
     chk.extra["valid_configurations"] = sum(1 for b in behs if b[0]["res"][0] == "ok")
@@ -492,6 +497,36 @@ def category_specific_settings(chk):
         if before != normal or got != want or flags["kiosk_special_needs_update"] or flags["default_normal_needs_update"]:
             chk.violation(f"category-setting:{name}:{key}", f"kiosk__{name}__{key}={special!r}: hashes carry {got} (expected {want}); fresh hashes flagged for update: {flags}",
                           {"scheme": name, "key": key, "got": {k: str(v) for k, v in got.items()}})
+
+
+def cost_like_settings(chk):
+    """settings that are part of a scheme's cost beside `rounds` (scrypt block size and parallelism): a stored hash is up to date exactly
+    when it carries the value configured for the category - lower AND higher stored values are flagged, under every category"""
+    from passlib.context import CryptContext
+    import passlib.hash as H
+    for key, render in (("parallelism", "p"), ("block_size", "r")):
+        vals = [1, 2, 3] if key == "parallelism" else [2, 8, 9]
+        stored = {v: H.scrypt.using(rounds=1, **{key: v}).hash("pw") for v in vals}
+        for default_v in vals:
+            for batch_v in vals:
+                try:
+                    ctx = CryptContext(schemes=["scrypt"], scrypt__rounds=1, **{f"scrypt__{key}": default_v, f"batch__scrypt__{key}": batch_v})
+                    for cat, want_v in ((None, default_v), ("batch", batch_v)):
+                        for v, hs in stored.items():
+                            chk.evaluations += 1
+                            chk.count(("cost-like", key, default_v, batch_v, cat, v))
+                            chk.action("cost-like-setting")
+                            got = ctx.needs_update(hs, category=cat)
+                            ok, new = ctx.verify_and_update("pw", hs, category=cat)
+                            if got != (v != want_v) or ok is not True or (new is None) != (v == want_v):
+                                chk.violation(f"cost-like:{key}", f"scrypt {key}: configured {want_v} (category {cat}), stored hash has {v}: needs_update={got}, verify_and_update gives "
+                                              f"{'no new hash' if new is None else 'a new hash'}", {"key": key, "configured": want_v, "category": cat, "stored": v, "hash": hs})
+                                raise StopIteration
+                except StopIteration:
+                    break
+                except Exception as ex:
+                    chk.violation(f"cost-like:{key}:{type(ex).__name__}", f"scrypt {key}: {type(ex).__name__}: {ex}", {"key": key})
+                    break
 
 
 def replay(chk, path):
